@@ -145,6 +145,13 @@ def gen_edits(ref, reps, k):
         yield "/".join(segs)
         for f in forms[1:]:
             yield f + "/".join(segs)
+        for i, (_key, p) in enumerate(ref.templates[typ]):
+            if p is None:                      # a colon inside a free-text value, with and without the type prefix
+                for v in (segs[i][:2] + ":" + segs[i][2:], ":" + segs[i], segs[i] + ":"):
+                    w = "/".join(segs[:i] + [v] + segs[i + 1:])
+                    yield typ + ":" + w
+                    yield ":" + w
+                    yield w
         singles = list(single_edits(segs, toks))
         for e in singles:
             s1 = apply_edit(segs, e)
@@ -169,6 +176,16 @@ def expected(ref, s):
         return ("exact", t, d, s)
     if c == 1:
         T, S = s.split(":")
+        if T == "":
+            t, d = ref.natural(S)
+        else:
+            d = ref.forced(S, T)
+            t = T if d is not None else None
+        return ("exact", t, d, S)
+    # two or more colons: "a 'type:' prefix forces that one template" - when what stands before the FIRST colon is a
+    # configured type (or nothing), the rest is the string, colons included (a free-text segment may contain one)
+    T, S = s.split(":", 1)
+    if T == "" or T in ref.templates:
         if T == "":
             t, d = ref.natural(S)
         else:
